@@ -10,7 +10,7 @@ TB = ("clang 14 front end and -O2 pipeline preserve the meaning of UB-free execu
 
 CHECKS = {
  "C01": dict(cat="other", tech="abstract interpretation of optimised LLVM IR into lane-wise closed forms; normal-form equality with add/sub/mul mod 2^n",
-   text="For every integer vector type of every analysed macro set, the optimised IR of + - * unary- ++ -- (binary, compound, returned value) is summarised statically into a closed form per lane and must be identical to add/sub/mul modulo 2^bits of the same lane of the operands; that decides the clause for all operand values, all lanes, every configuration enumerated. Emulated multiplies are normalised by algebraic slice rules (low-bits, schoolbook) and decided as well.",
+   text="(ub clause: width-1 types on IR without UB-exploiting passes, overflow-flag obligations.) For every integer vector type of every analysed macro set, the optimised IR of + - * unary- ++ -- (binary, compound, returned value) is summarised statically into a closed form per lane and must be identical to add/sub/mul modulo 2^bits of the same lane of the operands; that decides the clause for all operand values, all lanes, every configuration enumerated. Emulated multiplies are normalised by algebraic slice rules (low-bits, schoolbook) and decided as well.",
    note=TB, ref="4/C01"),
  "C02": dict(cat="other", tech="abstract interpretation of optimised LLVM IR; icmp/fcmp predicate normal forms incl. lexicographic two-halves merging",
    text="Every comparison operator of every vector type x configuration must normalise to icmp/fcmp with the predicate the C++ scalar operator has for that element type (signedness, IEEE unordered behaviour) on the same lane, packed in the mask representation; decides all lane values.",
@@ -51,6 +51,9 @@ CHECKS = {
  "C20": dict(cat="proof", tech="effect inventory over the resolved IR of every prefetch instantiation (no load/store/call other than llvm.prefetch; operand and stride checks)",
    text="Every instantiation of prefetch_read/prefetch_write (3 levels x untyped/typed x default n) at -O1 and -O2 in each analysed configuration contains only address arithmetic, control flow and llvm.prefetch(p+i, rw, 3-level, data) with a positive constant stride; llvm.prefetch has no effect on program behaviour (LangRef) and PREFETCHh never faults (SDM).",
    note="LLVM LangRef llvm.prefetch; SDM PREFETCHh; GCC takes the same source branch (C19 branch-selection equality)", ref="4/C20", engine="E4-effects"),
+ "C16": dict(cat="other", tech="closed-form comparison of every scalar overload with the lane specification per scalar feature set; bisimulation vs the width-1 vector operation; UB obligations on unoptimised IR",
+   text="(scalar-vs-spec) every scalar overload in avel/Scalar.hpp (bit functions, rotations, min/max/clamp, abs/neg_abs/negate, average/midpoint, keep/clear/blend, float classification/rounding/sqrt, mixed-sign cmp_*) under each scalar feature set is summarised from optimised IR and compared with the same lane specification the vector checks use (normal form, field partition, or exhaustive sign/order case analysis for cmp_*); (vec1-vs-scalar) the width-1 vector operation and the scalar overload have bisimilar bodies; (ub) on IR produced without any UB-exploiting pass (always-inline + inline + sroa only) every overflow-flagged arithmetic, shift amount and zero-undef count obligation is checked on the documented input lattice (a violated obligation is a refutation with the input).",
+   note=TB + "; UB clause: absence of a violation on the boundary lattice is not a proof of UB-freedom, a violation found is real", ref="4/C16"),
 }
 
 NA = {
